@@ -414,6 +414,42 @@ fn generate(rng: &mut Rng, tier: &str, w: &mut CaseWriter) {
             .collect();
         w.push("gzi", vec![fmt_chunks(&cs)]);
     }
+    // gzik: ARBITRARY bytes through the gzi readers (sync + async), exact io::ErrorKind compared with
+    // the model: declared count equal to / below / above / far above (up to u64::MAX) the number of
+    // 16-byte entries present, partial entries, partial count field, empty input, trailing bytes
+    for _ in 0..(if thorough { 4000 } else { 250 }) {
+        let k = rng.below(7);
+        let declared: u64 = match rng.below(8) {
+            0 | 1 | 2 => k,
+            3 => k + rng.range(1, 3),
+            4 => k.saturating_sub(rng.range(1, 2)),
+            5 => rng.next(),
+            6 => u64::MAX - rng.below(3),
+            _ => (1u64 << (8 * rng.range(1, 7))) | k,
+        };
+        let mut bs = declared.to_le_bytes().to_vec();
+        let big = rng.chance(1, 3);
+        for _ in 0..(2 * k) {
+            let v = if big { rng.next() } else { rng.below(1 << 24) };
+            bs.extend_from_slice(&v.to_le_bytes());
+        }
+        match rng.below(6) {
+            0 => {
+                let m = rng.range(1, 15) as usize; // partial entry or trailing data
+                bs.extend(rng.bytes(m));
+            }
+            1 => {
+                let m = rng.range(16, 40) as usize;
+                bs.extend(rng.bytes(m));
+            }
+            2 => {
+                let cut = rng.below(bs.len() as u64 + 1) as usize; // truncation anywhere (incl. inside the count)
+                bs.truncate(cut);
+            }
+            _ => {}
+        }
+        w.push("gzik", vec![nv::hex(&bs)]);
+    }
     for i in 0..n {
         w.push(if i % 2 == 0 { "fai" } else { "crai" }, vec![rng.next().to_string()]);
     }
@@ -1077,6 +1113,39 @@ fn run_gzi(c: &Case) -> Obs {
     }
 }
 
+/// arbitrary bytes through gzi::io::Reader::read_index and the async reader: the entries or the exact
+/// io::ErrorKind, compared with the model's read_gzi_k; oracle: the closed form of c17_read_gzi_k_total
+fn run_gzik(c: &Case) -> Obs {
+    use noodles_bgzf::gzi;
+    let bs = c.b(0);
+    let show = |r: Result<gzi::Index, String>| match r {
+        Ok(i) => format!("Ok {}", fmt_chunks(i.as_ref())),
+        Err(k) => k,
+    };
+    let sync = match nv::guarded(|| gzi::io::Reader::new(&bs[..]).read_index()) {
+        nv::Outcome::Panicked(m) => return Obs::fail("Panic", "gzi-reader-panic", format!("{m} {}", c.line())),
+        nv::Outcome::Done(r) => show(r.map_err(|e| format!("Err:{:?}", e.kind()))),
+    };
+    let asy = show(c17_layout::async_gzi_kind(bs.clone()));
+    if asy != sync {
+        return Obs::fail(sync.clone(), "gzi-async-reader-differs-from-sync", format!("sync {sync} async {asy} {}", c.line()));
+    }
+    // oracle (closed form): length vs 8 + 16 * declared count
+    let expect = if bs.len() < 8 {
+        "Err:UnexpectedEof"
+    } else {
+        let n = u64::from_le_bytes(bs[..8].try_into().unwrap()) as u128;
+        let need = 8 + 16 * n;
+        match (bs.len() as u128).cmp(&need) {
+            std::cmp::Ordering::Less => "Err:UnexpectedEof",
+            std::cmp::Ordering::Equal => "Ok",
+            std::cmp::Ordering::Greater => "Err:InvalidData",
+        }
+    };
+    let verdict = if sync.starts_with(expect) { Ok(()) } else { Err(("gzi-reader-error-kind-not-closed-form".to_string(), format!("expected {expect} got {sync} {}", c.line()))) };
+    Obs::ok(sync, bs.len() >= 8).with_verdict(verdict)
+}
+
 fn run_fai(seed: u64) -> Obs {
     use noodles_fasta::fai;
     use std::num::NonZero;
@@ -1229,6 +1298,7 @@ fn run(c: &Case) -> Obs {
         "csih" => run_csih(c),
         "bai" => run_bai(c),
         "gzi" => run_gzi(c),
+        "gzik" => run_gzik(c),
         "fai" => run_fai(c.u(0)),
         "crai" => run_crai(c.u(0)),
         "csiw" => c17_layout::run_csiw(c),
